@@ -253,7 +253,7 @@ real_out.write(json.dumps(res))
 
 def impl_e2e(cases):
     p = subprocess.run([lib.PY, "-c", _E2E_SCRIPT, lib.REPO], input=json.dumps(cases), capture_output=True, text=True,
-                       timeout=240, env=lib.ENV)
+                       timeout=90, env=lib.ENV)
     if p.returncode != 0:
         return None, p.stderr[-800:]
     return json.loads(p.stdout), None
